@@ -76,6 +76,9 @@ class Spec:
         self.calls = {}
         self.ctl = {}
         self.taint = None
+        self.cur_cbs, self.cur_res = [], "ok"
+        self.intent_prio = {}
+        self.failed_op = None
         self.ambiguous = False
         self.findings = []
         self.failed = False       # a scripted callback exception has propagated
@@ -209,6 +212,7 @@ class Spec:
             if ex is not None:
                 choice = ex
             else:
+                ret = self.choice_of(ret, cands)
                 if ret is None or not ret.isdigit() or int(ret) not in cands:
                     raise Mismatch('remove-matches-subtype', f'remove_component({e}, {T}) returned {ret}, '
                                    f'attached matching components: {cands}')
@@ -282,6 +286,7 @@ class Spec:
             if ex:
                 choice = ex[0]
             else:
+                ret = self.choice_of(ret, cands)
                 if ret is None or not ret.isdigit() or int(ret) not in cands:
                     raise Mismatch('remove-matches-subtype', f'remove_processor({T}) returned {ret}, '
                                    f'matching processors: {cands}')
@@ -364,12 +369,106 @@ class Spec:
                 return '-'
         raise ValueError(t)
 
+    # ------------------------------------------------------------------ after a propagated exception
+    def adopt(self, snap, failed_op):
+        """An operation was left through a scripted callback exception: the statement does not fix at
+        which of its steps, so the state is taken over from the queries - `get` per exact type, `entities`,
+        `processors`, `is_handler`, controllers - and `check_snapshot` then demands that every other
+        query agrees with that state (C01/C06), that there is one processor per type in priority order
+        (C07) and that no entity exists without components.  Later operations are judged from there."""
+        ctys = [i for i, k in enumerate(self.kind) if k in ('c', 'ctrl')]
+        get, entities, procs, ish, ctl, pw = {}, None, None, {}, {}, set()
+        for ln in snap:
+            t = ln.split()
+            if t[-1].startswith('!'):
+                self.check_snapshot([ln])       # a query that raises: reported there
+            if t[0] == 'get':
+                get[int(t[1])] = [tuple(int(x) for x in p.split(':')) for p in split_list(t[2])]
+            elif t[0] == 'entities':
+                entities = [int(x) for x in split_list(t[1])]
+            elif t[0] == 'procs':
+                procs = [int(x) for x in split_list(t[1])]
+            elif t[0] == 'ish':
+                ish[int(t[1])] = bool(int(t[2]))
+            elif t[0] == 'ctl':
+                ctl[int(t[1])] = t[2]
+            elif t[0] == 'pw':
+                pw = set(int(x) for x in split_list(t[1]))
+        if entities is None or procs is None or any(T not in get for T in ctys):
+            return False
+        new = {}
+        for T in ctys:
+            for e, c in get[T]:
+                if self.objty[c] != T:
+                    continue
+                if T in new.get(e, {}) and new[e][T] != c:
+                    raise Mismatch('get', f'get({T}) lists two components of that exact type for entity {e}: '
+                                   f'{new[e][T]} and {c}')
+                new.setdefault(e, {})[T] = c
+        # keep the known attachment order of what survived, append what is new
+        merged = {}
+        for e, row in self.attached.items():
+            keep = {T: c for T, c in row.items() if new.get(e, {}).get(T) == c}
+            if keep:
+                merged[e] = keep
+        for e, row in new.items():
+            for T, c in row.items():
+                merged.setdefault(e, {}).setdefault(T, c)
+        for e in entities:
+            if e not in merged:
+                raise Mismatch('get', f'entities lists {e}, but get() lists no component for it under any type')
+        unknown = [] if failed_op == 'process' else [x for x in self.dead if x not in merged and
+                                                     x not in self.attached]
+        self.attached = merged
+        self.dead = [e for e in merged if e not in entities] + unknown
+        seen = {}
+        for q in procs:
+            T = self.objty[q]
+            if T in seen:
+                raise Mismatch('processors-order', f'processors {procs} holds two processors of one type '
+                               f'({seen[T]} and {q})')
+            seen[T] = q
+        pr = [self.iprio.get(q, self.intent_prio.get(q, self.prio[self.objty[q]])) if q in self.procs
+              else self.intent_prio.get(q, self.iprio.get(q, self.prio[self.objty[q]])) for q in procs]
+        if pr != sorted(pr):
+            raise Mismatch('processors-order', f'processors {procs} with priorities {pr} are not in '
+                           'ascending priority order')
+        for q, x in zip(procs, pr):
+            if x != self.prio[self.objty[q]]:
+                self.iprio[q] = x
+        self.procs = procs
+        self.pworld = set(self.pworld) & pw | set(procs)
+        self.registered = {o for o, v in ish.items() if v}
+        for o in self.registered:
+            self.known |= set(self.mapping(o) or {})
+        for o, v in ctl.items():
+            if v == 'None':
+                self.ctl.pop(o, None)
+            else:
+                self.ctl[o] = int(v)
+        return True
+
+    def choice_of(self, ret, cands):
+        """Which of several matching candidates a removal picked: its return value; when the call did not
+        return because the on_remove callback of the removed object raised, the object that callback
+        belongs to."""
+        if (ret is None or not ret.isdigit()) and self.cur_res.startswith('raised') and self.cur_cbs:
+            last = self.cur_cbs[-1].split()
+            if last[1].isdigit() and int(last[1]) in cands:
+                return last[1]
+        return ret
+
     # ------------------------------------------------------------------ snapshot validation
     def check_snapshot(self, snap):
         ctys = [i for i, k in enumerate(self.kind) if k in ('c', 'ctrl')]
         for ln in snap:
             t = ln.split()
             tag = t[0]
+            if t[-1].startswith('!'):
+                clause = {'get': 'get', 'row': 'get_components', 'exists': 'entity_exists', 'has': 'has_component',
+                          'entities': 'entities', 'procs': 'processors-order', 'gp': 'get_processor',
+                          'ish': 'registered-iff-attached'}.get(tag, tag)
+                raise Mismatch(clause, f'query `{" ".join(t[:-1])}` raised {t[-1][1:]}')
             if tag == 'get':
                 T = int(t[1])
                 want = sorted(e * 100000 + c for e, row in self.attached.items() for ty, c in row.items()
@@ -489,9 +588,11 @@ def _check_ops(sp, groups):
         if t[0] == 'snap':
             if g[0] != 'snap':
                 return [{'sig': 'shape', 'what': f'expected snapshot lines, got {g}'}]
-            if sp.failed:
-                continue
             try:
+                if sp.failed:
+                    if not sp.adopt(g[1], sp.failed_op):
+                        continue
+                    sp.failed = False
                 sp.check_snapshot(g[1])
             except Mismatch as m:
                 return [{'sig': m.clause + territory(), 'what': m.what}]
@@ -513,6 +614,9 @@ def _check_ops(sp, groups):
             continue
         out = []
         want_res, want_ret = 'ok', '-'
+        sp.cur_cbs, sp.cur_res = cbs, res
+        if t[0] == 'addproc' and t[2] != '-':
+            sp.intent_prio[int(t[1])] = int(t[2])
         try:
             want_ret = sp.op(t, ret, out)
         except ScriptedRaise as e:
@@ -520,6 +624,7 @@ def _check_ops(sp, groups):
             # a callback raising while postponed events are released leaves a well defined state: that
             # event was delivered, the later ones stay pending in order (they are popped one at a time)
             if e.name != 'KeyError' and t[0] != 'enable':
+                sp.failed_op = t[0]
                 sp.failed = 'deleted' if any(x not in sp.attached for x in sp.dead) else True
         except Mismatch as m:
             return [{'sig': m.clause + territory(), 'what': m.what}]
